@@ -363,3 +363,20 @@ Fixpoint changes_ok (rows : Z) (cs : list cmd) (e : est) : bool :=
       (match c with COp _ a1 Oc a2 t _ => negb (target_fails rows e a1 a2 t) | _ => true end) &&
       match exec1 rows c e with Some e' => changes_ok rows r e' | None => true end
   end.
+
+(* for the correspondence driver: the loop of vi() on a typed session, noting after every round how many
+   typed keys and how many pushed keys are still unread; the final state, None = a push was clipped or fuel *)
+Fixpoint vi_trace (rows : Z) (fuel : nat) (s : st N vis) : list (nat * nat) * option vis :=
+  match stream (q s) with
+  | [] => ([], Some (ed s))
+  | _ => match fuel with
+         | O => ([], None)
+         | S f => if fits (vi_exec rows) s
+                  then let s' := step (vi_exec rows) s in
+                       let (l, r) := vi_trace rows f s' in
+                       ((length (tin (q s')), length (ibuf (q s'))) :: l, r)
+                  else ([], None)
+         end
+  end.
+Definition vi_session_trace (rows : Z) (fuel : nat) (b : buf) (keys : bytes) : list (nat * nat) * option vis :=
+  vi_trace rows fuel (typed_at keys [] (mk_vis (Some (init_est b)) None)).
